@@ -98,7 +98,15 @@ def step(j):
     rc, out = run([TUNE2FS] + argv + [p], timeout=120)
     after = open(p, 'rb').read()
     if rc != 0:
-        return (label, [], None, 'refused' if after == before else 'failed-modified', out[-200:])
+        if after == before: return (label, [], None, 'refused', out[-200:])
+        # a run that gave up half-way: whatever it wrote, the files must still be there (the conversion may be incomplete, the data may not be lost)
+        bad = []
+        try:
+            d = xtree.diff(xtree.tree(Image(before)), xtree.tree(Image(after)))
+            if d: bad.append('tune2fs exits %s after modifying the filesystem and files changed: %s' % (rc, d[:4]))
+        except Exception as e:
+            bad.append('tune2fs exits %s after modifying the filesystem and the tree is no longer readable: %r' % (rc, e))
+        return (label, bad, None, 'failed-modified', out[-200:])
     bad = []
     asked = 'Please run e2fsck' in out or 'run e2fsck -f' in out.lower() or 'e2fsck -f' in out
     if asked:
@@ -159,7 +167,7 @@ def main(tier, only=None):
     quick = tier == 'quick'
     ck.set_deadline(420 if quick else 3000)
     STATES = os.path.join(scratch(), 'states'); os.makedirs(STATES)
-    bases = only or ['ext2', 'ext2dx', 'ext3', 'ext4', 'ext4csum', 'quota', 'inline', 'eashare']
+    bases = only or ['ext2', 'ext2dx', 'ext3', 'ext4', 'ext4csum', 'quota', 'inline', 'eashare', 'iexpand']
     depth = 2 if quick else 3
     seen = {}; trans = 0; outcomes = {}; maxd = 0; frontier_left = 0
     samples = []
@@ -195,7 +203,7 @@ def main(tier, only=None):
     ck.add(evaluations=trans, distinct_nontrivial=len(seen), states=len(seen), transitions=trans, traces_validated_against_impl=trans,
            rule='BFS over tune2fs invocation sequences (menu of %d invocations: feature conversions, UUID, inode size, quota, labels, reserved blocks, error behaviour, intervals, mount options, RAID hints) from %d corpus images to depth %d; '
                 'states de-duplicated on the image hash with clock/counter fields masked; oracle per successful transition: requested setting present, no other superblock field changed outside a per-operation allow-list, '
-                'independent tree digest unchanged, e2fsck -fn = 0 and independent checker clean (after the e2fsck run tune2fs asked for, which must exit <= 1)' % (len(OPS), len(bases), depth),
+                'independent tree digest unchanged, e2fsck -fn = 0 and independent checker clean (after the e2fsck run tune2fs asked for, which must exit <= 1); a run that exits non-zero after writing to the image must not have changed any file' % (len(OPS), len(bases), depth),
            samples=samples or [' ; '.join(list(seen.values())[-1])])
     ck.cov['outcomes'] = outcomes; ck.cov['max_depth_reached'] = maxd; ck.cov['frontier_states_not_expanded'] = frontier_left
     ck.assumptions += ['MMP bases are left out (every read-write open sleeps)', 'tune2fs -U random/time are not in the menu (non-deterministic results)']
